@@ -17,6 +17,7 @@ import (
 	"net"
 	"net/http"
 	"net/url"
+	"strings"
 	"sync"
 	"sync/atomic"
 	"time"
@@ -150,6 +151,43 @@ func (b *idBitmap) Release(id uint16) {
 type DnsForwarder interface {
 	ForwardDNS(ctx context.Context, data []byte) (*dnsmessage.Msg, error)
 	Close() error
+}
+
+// dnsQuestionFromWire returns the first question of a packed DNS message.
+func dnsQuestionFromWire(data []byte) (q dnsmessage.Question, ok bool) {
+	if len(data) < 12 || binary.BigEndian.Uint16(data[4:6]) == 0 {
+		return q, false
+	}
+	name, off, err := dnsmessage.UnpackDomainName(data, 12)
+	if err != nil || off+4 > len(data) {
+		return q, false
+	}
+	return dnsmessage.Question{
+		Name:   name,
+		Qtype:  binary.BigEndian.Uint16(data[off:]),
+		Qclass: binary.BigEndian.Uint16(data[off+2:]),
+	}, true
+}
+
+// dnsResponseMatchesQuestion reports whether resp can be the answer to q
+// (RFC 5452 section 9.1: the question section must match, not only the ID).
+// Names are compared case-insensitively. A response without a question
+// section cannot be told apart and is accepted as before.
+func dnsResponseMatchesQuestion(resp *dnsmessage.Msg, q dnsmessage.Question) bool {
+	if resp == nil || len(resp.Question) == 0 {
+		return true
+	}
+	rq := resp.Question[0]
+	return rq.Qtype == q.Qtype && rq.Qclass == q.Qclass && strings.EqualFold(rq.Name, q.Name)
+}
+
+// dnsResponseMatchesRequest is dnsResponseMatchesQuestion for a packed request.
+func dnsResponseMatchesRequest(request []byte, resp *dnsmessage.Msg) bool {
+	q, ok := dnsQuestionFromWire(request)
+	if !ok {
+		return true
+	}
+	return dnsResponseMatchesQuestion(resp, q)
 }
 
 func newDnsForwarder(upstream *dns.Upstream, dialArgument dialArgument, log *logrus.Logger) (DnsForwarder, error) {
@@ -1110,6 +1148,10 @@ func (d *DoUDP) ForwardDNS(ctx context.Context, data []byte) (*dnsmessage.Msg, e
 	if len(data) >= 2 {
 		originalID = binary.BigEndian.Uint16(data[0:2])
 	}
+	// The question is validated too: client transaction IDs collide easily
+	// (they are forwarded as is), and a pooled socket may still receive a late
+	// or duplicated reply to the previous query it carried.
+	originalQuestion, hasQuestion := dnsQuestionFromWire(data)
 
 	// Send DNS request directly without creating goroutine
 	if _, err = netutils.WriteUDPConn(conn, d.dialArgument.bestTarget.String(), data); err != nil {
@@ -1179,6 +1221,20 @@ func (d *DoUDP) ForwardDNS(ctx context.Context, data []byte) (*dnsmessage.Msg, e
 			udpPool.discard(conn)
 			badConn = true
 			return nil, err
+		}
+		if hasQuestion && !dnsResponseMatchesQuestion(&msg, originalQuestion) {
+			// Same ID, different question: a stale reply to an earlier query on
+			// this socket. Discard it and keep waiting, like a stale ID.
+			staleResponses++
+			if d.log != nil && d.log.IsLevelEnabled(logrus.DebugLevel) {
+				d.log.Debugf("discard stale UDP DNS response: question mismatch for id %d", originalID)
+			}
+			if staleResponses > maxStaleResponses {
+				udpPool.discard(conn)
+				badConn = true
+				return nil, fmt.Errorf("too many stale UDP DNS responses")
+			}
+			continue
 		}
 		if msg.Truncated {
 			return &msg, ErrDNSTruncated
